@@ -307,8 +307,8 @@ def case_exact(ctx, drv, case):
     ok, d = cmp_shift(obs, mshift, M, N, TOL64)
     ctx.stat_max("exact:np model-vs-impl shift", d)
     if not ok:
-        ctx.disagree("exact-np", case, {"shift": mnp["shift"], "peak": mnp["peak"], "dx": mnp["dx"], "dy": mnp["dy"]},
-                     {"shift": [float(obs[0]), float(obs[1])]}, note="cross_correlation_shift vs shiftNp1")
+        ctx.disagree("exact-np", case, {"shift": mshift}, {"shift": [float(obs[0]), float(obs[1])]},
+                     note=f"cross_correlation_shift vs shiftNp1 (model exact {mnp['shift']}, peak {mnp['peak']}, dx {mnp['dx']}, dy {mnp['dy']})")
     # ---- implementation: torch (upsample_factor 1 and 2 take the same path)
     tup = case.get("tup", 2)
     tobs = impl_torch(ref, im, up=tup)
@@ -319,8 +319,8 @@ def case_exact(ctx, drv, case):
         ok, d = cmp_shift(tobs, tshift, M, N, TOL64)
         ctx.stat_max("exact:torch model-vs-impl shift", d)
         if not ok:
-            ctx.disagree("exact-torch", case, {"shift": mto["shift"], "peak": mto["peak"], "dx": mto["dx"], "dy": mto["dy"]},
-                         {"shift": [float(tobs[0]), float(tobs[1])]}, note="cross_correlation_shift_torch vs shiftTorch2")
+            ctx.disagree("exact-torch", case, {"shift": tshift}, {"shift": [float(tobs[0]), float(tobs[1])]},
+                         note=f"cross_correlation_shift_torch vs shiftTorch2 (model exact {mto['shift']}, peak {mto['peak']}, dx {mto['dx']}, dy {mto['dy']})")
     ctx.mark(("exact", case["kind"], shape_sig(M, N), ms is not None, o["fft_input"], o["ret"], o["fft_output"],
               shift_class(t, M, N) if t else "-"))
     # ---- property predicates on the implementation
@@ -415,9 +415,19 @@ def case_upint(ctx, drv, case):
             ok, dist = cmp_shift(o, ms, M, N, tol)
             ctx.stat_max(f"upint:{variant} model-vs-impl shift", dist)
             ctx.dist[f"upint:model-compared[{variant}]"] += 1
+            if ident and "pgap" in m:
+                # hypothesis `hstrict` of identical_zero_upsampled_*: the patch maximum is attained only at the centre
+                g = d.b2f(m["pgap"]) / max(d.b2f(m["pscale"]), 1e-300)
+                key = f"min relative gap between the patch centre and the runner-up, identical images [{variant}]"
+                ctx.extra[key] = min(ctx.extra.get(key, float("inf")), g)
+                P = (2 * ((3 * up + 1) // 2) + 1) if variant == "np" else (3 * up + 1) // 2
+                centre_idx = P // 2
+                if list(m["ppeak"]) != [centre_idx, centre_idx] or g <= 0:
+                    ctx.disagree(f"upint-{variant}-centre", case, {"ppeak": [centre_idx, centre_idx]}, {"ppeak": m["ppeak"], "gap": g},
+                                 note="model patch of identical images does not peak strictly at the centre index")
             if not ok:
-                ctx.disagree(f"upint-{variant}", case, {"shift": ms, "peak": m["peak"], "ppeak": m.get("ppeak")},
-                             {"shift": [float(o[0]), float(o[1])]}, note="integer shift at upsample factor")
+                ctx.disagree(f"upint-{variant}", case, {"shift": ms}, {"shift": [float(o[0]), float(o[1])]},
+                             note=f"integer shift at upsample factor (model peak {m['peak']}, patch peak {m.get('ppeak')})")
     ctx.sample(case, limit=3)
 
 
@@ -485,8 +495,8 @@ def case_subpixel(ctx, drv, case):
             ok, dist = cmp_shift(obs, ms, M, N, TOL64)
             ctx.stat_max("subpixel:np model-vs-impl shift", dist)
             if not ok:
-                ctx.disagree("subpixel-np", case, {"shift": ms, "peak": m["peak"], "ppeak": m.get("ppeak")},
-                             {"shift": [float(obs[0]), float(obs[1])]}, note="cross_correlation_shift vs shiftNpUp/shiftNp1 (Float)")
+                ctx.disagree("subpixel-np", case, {"shift": ms}, {"shift": [float(obs[0]), float(obs[1])]},
+                             note=f"cross_correlation_shift vs shiftNpUp/shiftNp1 (Float; model peak {m['peak']}, patch peak {m.get('ppeak')})")
             else:
                 if o["fft_output"]:
                     mf = np.array([[complex(d.b2f(z[0]), d.b2f(z[1])) for z in row] for row in m["fimg"]])
@@ -510,8 +520,8 @@ def case_subpixel(ctx, drv, case):
             ok, dist = cmp_shift(tobs, ms, M, N, TOL32 if up > 2 else TOL64)
             ctx.stat_max("subpixel:torch model-vs-impl shift" + ("[float32 kernels]" if up > 2 else ""), dist)
             if not ok:
-                ctx.disagree("subpixel-torch", case, {"shift": ms, "peak": m["peak"], "ppeak": m.get("ppeak")},
-                             {"shift": [float(tobs[0]), float(tobs[1])]}, note="cross_correlation_shift_torch vs shiftTorchUp/shiftTorch2 (Float)")
+                ctx.disagree("subpixel-torch", case, {"shift": ms}, {"shift": [float(tobs[0]), float(tobs[1])]},
+                             note=f"cross_correlation_shift_torch vs shiftTorchUp/shiftTorch2 (Float; model peak {m['peak']}, patch peak {m.get('ppeak')})")
     ctx.sample(case, limit=5)
 
 
@@ -579,8 +589,8 @@ def case_kernels(ctx, drv, case):
             ok, dist = close(r, ms, TOL32)
             ctx.stat_max("kernels:upsampled_correlation_torch model-vs-impl [float32 kernels]", dist)
             if not ok:
-                ctx.disagree("kernels-upcorr", case, {"xy": ms, "ppeak": m["ppeak"]}, {"xy": [float(r[0]), float(r[1])]},
-                             note="upsampled_correlation_torch vs upsampledTorch")
+                ctx.disagree("kernels-upcorr", case, {"xy": ms}, {"xy": [float(r[0]), float(r[1])]},
+                             note=f"upsampled_correlation_torch vs upsampledTorch (model patch peak {m['ppeak']})")
     ctx.mark(("kernels", shape_sig(M, N), up))
     ctx.sample(case, limit=6)
 
@@ -656,7 +666,7 @@ def run(ctx):
     drv = Driver("C13")
     try:
         rng = ctx.rng.fork(1)
-        for i in range(ctx.n(160, 2500)):
+        for i in range(ctx.n(300, 3000)):
             run_case(ctx, drv, gen_exact(rng.fork(i)))
         # identical images at EVERY upsample factor 1..64, integer shifts at random factors
         rng = ctx.rng.fork(2)
@@ -673,10 +683,10 @@ def run(ctx):
             run_case(ctx, drv, {"stream": "upint", "img": gen_int_image(r, M, N), "t": [r.randint(-M, 2 * M), r.randint(0, N - 1)], "up": up,
                                 "drv": up <= 8 and r.chance(0.4), "swap": r.chance(0.5)})
         rng = ctx.rng.fork(3)
-        for i in range(ctx.n(56, 700)):
+        for i in range(ctx.n(84, 700)):
             run_case(ctx, drv, gen_subpixel(rng.fork(i), i))
         rng = ctx.rng.fork(4)
-        for i in range(ctx.n(24, 300)):
+        for i in range(ctx.n(36, 300)):
             run_case(ctx, drv, gen_kernels(rng.fork(i), i))
         rng = ctx.rng.fork(5)
         for i in range(ctx.n(12, 150)):
